@@ -103,6 +103,10 @@ func runCheck(id, tier string) int {
 		return checkC01(tier)
 	case "C08":
 		return checkC08(tier)
+	case "C04":
+		return checkC04(tier)
+	case "C05":
+		return checkC05(tier)
 	case "C06":
 		return checkC06(tier)
 	case "C07":
